@@ -12,12 +12,12 @@ TransQ(e) ==
     \/ e.op = "push_back" /\ e.ok  /\ PushBack(e.o, e.x, D, B)
     \/ e.op = "push_back" /\ ~e.ok /\ PushBackRefused(e.o, e.x, D, B)
     \/ e.op = "pop_front" /\ PopFront(e.o, e.r, D, B)
-    \/ e.op = "push_bulk" /\ e.ok  /\ PushBulk(e.o, e.xs, e.r, seqs[e.o] \o e.born, D, B)
+    \/ e.op = "push_bulk" /\ e.ok  /\ PushBulk(e.o, e.xs, e.r, seqs[e.o] \o (IF acct THEN e.born ELSE e.xs), D, B)
     \/ e.op = "push_bulk" /\ ~e.ok /\ PushBulkRefused(e.o, D, B)
     \/ e.op = "pop_bulk"  /\ PopBulk(e.o, e.fill, e.out, e.r, D, B)
     \/ e.op = "reserve"   /\ ReserveQ(e.o, D, B)
     \/ e.op = "clear"     /\ ClearQ(e.o, D, B)
-    \/ e.op = "clone"     /\ CloneQ(e.o, e.o2, e.born, D, B)
+    \/ e.op = "clone"     /\ CloneQ(e.o, e.o2, IF acct THEN e.born ELSE seqs[e.o], D, B)
     \/ e.op = "drop"      /\ DropQ(e.o, D, B)
 
 (* what the object shows after the call must be the new abstract state *)
